@@ -3,6 +3,7 @@ package main
 import (
 	"fmt"
 	"strings"
+	"time"
 
 	"github.com/pip-services3-gox/pip-services3-expressions-gox/csv"
 	"github.com/pip-services3-gox/pip-services3-expressions-gox/tokenizers"
@@ -57,6 +58,23 @@ func runCsvCase(c *Ctx, cfg csvCfgT, eol string, rows [][]string, text string) {
 	kind := fmt.Sprintf("%s:%s:%s", []string{"c", "C", "D"}[c.Rng.Intn(3)], runesStr(cfg.seps), runesStr(cfg.quotes))
 	op := tokOpLine(kind, 64, []rune(text))
 	ts, st := tokenizeImpl(kind, 64, text)
+	if c.Evals%8 == 3 {
+		// "the tokenizer" is also one that looked into another file before: a reader was set, a presence query
+		// prefetched a token, and the file was dropped without fetching it
+		prev := "id" + string(cfg.seps[0]) + "x\r\n1" + string(cfg.seps[0]) + "2"
+		st = safeCallT(3*time.Second, func() string {
+			t := newTokenizer(kind)
+			setOpts(t, 64)
+			t.SetReader(newScanner(prev))
+			t.HasNextToken()
+			t.NextToken()
+			t.HasNextToken()
+			ts = conv(t.TokenizeBuffer(text))
+			return ""
+		})
+		op = fmt.Sprintf("hist %s 64 -1 %s %s", kind, strRunes(prev), strRunes(text))
+		c.count("tokenizer:abandoned-after-presence-query")
+	}
 	nf := 0
 	special := false
 	for _, r := range rows {
@@ -120,6 +138,9 @@ func runCsvCase(c *Ctx, cfg csvCfgT, eol string, rows [][]string, text string) {
 		c.fail(Failure{Kind: "oracle", Op: op, Impl: impl, Note: bad + fmt.Sprintf(" (text %q)", text)})
 		return
 	}
+	if strings.HasPrefix(op, "hist ") {
+		op = tokOpLine(kind, 64, []rune(text))
+	}
 	c.model(op, impl, "model")
 }
 
@@ -131,6 +152,12 @@ func propC09(c *Ctx) {
 		{[]rune{'\t', ',', '|'}, []rune{'"'}},
 		{[]rune{0x416}, []rune{0xab}},
 		{[]rune{';'}, []rune{'\'', 0x201c}},
+		// the ends of the direct table of the character maps (0x00-0xFF) and of the interval list above it
+		{[]rune{0x100}, []rune{0xff}},
+		{[]rune{0xff}, []rune{0x100}},
+		{[]rune{0x101, 0x100}, []rune{0xfe, '"'}},
+		{[]rune{0xfffd}, []rune{0xfffe}},
+		{[]rune{1}, []rune{0x7f}},
 	}
 	eols := []string{"\n", "\r", "\r\n", "\n\r"}
 	n := 6000
@@ -173,7 +200,9 @@ func propC09(c *Ctx) {
 
 func replayC09(c *Ctx, op string) {
 	f := strings.Fields(op)
-	if len(f) == 4 {
+	if f[0] == "hist" {
+		replayC05(c, op)
+	} else if len(f) == 4 {
 		runC04Case(c, f[1], parseRunes(f[3]))
 	}
 }
